@@ -254,13 +254,7 @@ def correspondence(rng, tier):
     import odl
     from odl.discr.partition import (uniform_partition_fromintv, uniform_partition_fromgrid,
                                      uniform_partition, nonuniform_partition)
-    # variant switch for finding C14/getitem-int-below-minus-n: which behaviour does /repo exhibit?
-    try:
-        odl.uniform_partition(0, 3, 3)[-5]
-        strict = False
-    except IndexError:
-        strict = True
-    cs = C.CaseSet('part', IMPORTS, 'check %s' % C.b(strict), 'case')
+    cs = C.CaseSet('part', IMPORTS, 'check', 'case')
     N = 1 if tier == 'quick' else 4
 
     def add(opterm, out, desc, trivial=False):
@@ -843,7 +837,10 @@ def probes(rng, tier):
         probe('shared-grid-cell-sides', 'partitions sharing one RectGrid each report their own cell_sides / cell_volume '
               '(length-1 axes: the extent), in any read order', src)
 
-    # -- P10 aliasing: writing into an array handed out by an attribute must not change any partition on that grid
+    # -- P10 derived quantities (recomputed on every call in the code at hand) must not be views of a cache that
+    #    the library itself reads later: overwrite what was returned, all partitions on the grid stay what they are.
+    #    (Getters that hand out the object's own state -- cell_boundary_vecs, min_pt/max_pt, coord_vectors, meshgrid --
+    #    are NOT probed: caller-side writes into them are outside the property's quantifier.)
     snap = ("def snap(t):\n"
             "    return repr((t.min_pt.tolist(), t.max_pt.tolist(), [v.tolist() for v in t.coord_vectors],\n"
             "                 [v.tolist() for v in t.cell_boundary_vecs], [v.tolist() for v in t.cell_sizes_vecs],\n"
@@ -852,9 +849,7 @@ def probes(rng, tier):
     getters = [('cell_sides', 'p.cell_sides'), ('cell_sizes_vecs', 'p.cell_sizes_vecs'), ('grid.stride', 'p.grid.stride'),
                ('extent', 'p.extent'), ('grid.extent', 'p.grid.extent'), ('grid.min_pt', 'p.grid.min_pt'),
                ('grid.max_pt', 'p.grid.max_pt'), ('mid_pt', 'p.mid_pt'), ('grid.mid_pt', 'p.grid.mid_pt'),
-               ('points', 'p.points()'), ('cell_boundary_vecs', 'p.cell_boundary_vecs'),
-               ('set-limits', 'p.min_pt'), ('set-limits', 'p.max_pt'), ('set-limits', 'p.min()'), ('set-limits', 'p.max()'),
-               ('coord_vectors', 'p.coord_vectors'), ('coord_vectors', 'p.meshgrid')]
+               ('points', 'p.points()')]
     for name, expr in getters:
         for _ in range(N):
             css = [[0.0, 1.0, 2.5][:rng.choice([1, 2, 3])], [5.0, 5.5][:rng.choice([1, 2])]]
@@ -869,7 +864,7 @@ def probes(rng, tier):
                    "for arr in (a if isinstance(a, (tuple, list)) else [a]):\n"
                    "    try:\n        arr[...] = 123.0\n    except ValueError:\n        pass          # read-only arrays are fine\n"
                    "observed = (snap(p), snap(q)); ok = observed == expected\n" % expr)
-            probe('aliasing-' + name, 'writing into the array returned by %s changes no observable of any partition on that grid' % expr, src)
+            probe('derived-array-is-fresh-' + name, 'overwriting the array returned by %s changes no observable of any partition on that grid' % expr, src)
 
     # -- P6 every consistent subset of (min_pt, max_pt, shape, cell_sides) gives the same partition
     for _ in range(40 * N):
@@ -918,8 +913,8 @@ LEVEL_TEXT = ('Proof: for a hand-written Coq model of RectPartition / RectGrid /
               'findings (one-point axes: cell size 0.0 and nodes_on_bdry placement; stepped slices / index lists keep the '
               'hull; integers below -n accepted; zero-extent axes have non-strict boundaries).')
 LEVEL_NOTE = ('Also proved: byaxis (selected axes unchanged), ellipsis / too-few-indices / integer normalisation, default '
-              'limits of nonuniform_partition and uniform_partition_fromgrid. Validated, not proved: the model itself '
-              '(correspondence), index lists with gaps, negative steps, squeeze(axis) for partial selections. '
+              'limits of nonuniform_partition and uniform_partition_fromgrid (also explicit ones), increasing index lists, rejection of negative steps, squeeze(axis=i). Validated, not proved: the model itself '
+              '(correspondence), unsorted/negative index lists, single-point negative steps, squeeze(axis=list|slice). '
               'np.isclose/allclose decisions are modelled as exact equality; float rounding is out of scope. '
               'Axioms: classical reals + funext as printed by Print Assumptions (insert/append/squeeze theorems are closed).')
 TECHNIQUE = 'Coq proofs by list induction over a hand-written model + in-Coq differential correspondence'
